@@ -174,6 +174,10 @@ pub fn fault_sites() -> Vec<(String, Step)> {
             add(format!("{pre}.to_str.zero.r{r}:radix"), Step::new(&format!("{pre}.to_str")).i("a", zero).i("r", r));
             for f in 0..2 {
                 add(format!("{pre}.parse.f{f}.r{r}:radix"), Step::new(&format!("{pre}.parse")).i("d", 0).i("f", f).i("r", r).s("s", "10"));
+                // strings that are rejected before any digit is looked at: the radix check still comes first
+                for (ti, t) in ["", "+", "-", "_1", "+_1", "-_", "_"].iter().enumerate() {
+                    add(format!("{pre}.parse.f{f}.r{r}.t{ti}:radix"), Step::new(&format!("{pre}.parse")).i("d", 0).i("f", f).i("r", r).s("s", t));
+                }
             }
         }
         for r in bad_dig {
